@@ -5,6 +5,7 @@ import (
 	"fmt"
 	"runtime"
 	"runtime/debug"
+	"sync/atomic"
 
 	"github.com/google/uuid"
 	"github.com/jf-tech/go-corelib/caches"
@@ -54,10 +55,11 @@ func DrawIDBase(t *tape.Tape) int64 {
 
 type seededReader struct{ s uint64 }
 
+// Read is safe for concurrent use, as the random source the uuid package uses by default is: NewSchema
+// (which draws uuids for its declaration hashes) may be called from several tasks.
 func (r *seededReader) Read(p []byte) (int, error) {
 	for i := range p {
-		r.s += 0x9e3779b97f4a7c15
-		z := r.s
+		z := atomic.AddUint64(&r.s, 0x9e3779b97f4a7c15)
 		z = (z ^ (z >> 30)) * 0xbf58476d1ce4e5b9
 		z = (z ^ (z >> 27)) * 0x94d049bb133111eb
 		z ^= z >> 31
